@@ -213,10 +213,13 @@ class Hub(object):
         finally:
             self._paused -= 1
             if self._paused == 0:
+                # Detach the queue before delivering it: a handler may itself
+                # use delay_callbacks, and leaving that block must deliver only
+                # what was queued inside it, not the present queue once more.
                 # TODO: could de-duplicate messages here
-                for message in self._queue:
+                queue, self._queue = self._queue, []
+                for message in queue:
                     self.broadcast(message)
-                self._queue = []
 
     def broadcast(self, message):
         """Broadcasts a message to all subscribed objects.
